@@ -63,6 +63,16 @@ CLAIMED = {
             "Trusted: node doubles incl. migration state machine; sampling of migration schedules (not exhaustive). Known findings are matched by (rule, signature) in known_findings.json.",
             "deterministic simulation with slot-migration fault sequences + per-key order oracle",
             "DESIGN.md §3 C19"),
+    "C12": ("exploration",
+            "Stream-reader simulation: the generated replication stream reaches the real decoder through an io.Reader that returns scheduler-drawn fragments (1 B..64 KiB) under bufio sizes 16 B..1 MiB; for streams <= 512 B EVERY split position and EVERY cut position is enumerated; arguments must be byte-equal, reported offsets must equal the bytes consumed, a cut inside an item must yield an error and never a command; second half: every Go argument type the sender passes goes through the real target encoder into the same decoder. Only the I/O-fragmentation axis is simulated (no concurrency in this property).",
+            "Trusted: the simulator's own RESP codec as reference encoder, the generator's argument rendering rules.",
+            "deterministic simulation of the I/O seam (fragmenting reader) + offset/argument oracle; split positions enumerated for short streams",
+            "DESIGN.md §3 C12"),
+    "C15": ("exploration",
+            "2-5 real redisElection contenders, each on its own connection to one lease-store double that EXECUTES the election Lua scripts with a mini-Lua interpreter, under a seeded schedule of calls, store executions, reply deliveries, lost requests/replies, resets and idle periods drawn around the TTL (virtual clock); in the renew-loop strata the real cmd clusterTicker/clusterCampaign/clusterRenew drive the calls. Oracles: sequential lease specification in store-execution order (no two holders, non-holder renew -> ErrNotLeader, foreign resign keeps the lease, expiry liveness), interval-overlap oracle from the property text, and porcupine linearizability of the recorded call history.",
+            "Trusted: lease-store double incl. mini-Lua subset (a script outside the subset aborts the check with exit 2, never a verdict), millisecond store clock. Redis lease only (etcd election not exercised).",
+            "deterministic simulation (virtual clock, lossy transport) + sequential lease model + porcupine history check",
+            "DESIGN.md §3 C15"),
 }
 
 NOT_APPLICABLE = {
